@@ -259,7 +259,12 @@ def async_recording_ops(props=None):
             if len(given) != 1 or given[0] is None:
                 continue
             # execute the enqueued closure: exactly wrapped.<call>(same arguments)
-            for s2, r2 in ex.call_value(s.copy(), given[0], [], {}, node):
+            # ... at FLUSH time: later requests have changed the producer-side transient copy in the meantime (any contents), the operation
+            # must still carry the values it was requested with
+            sF = s.copy()
+            for dd in (d, md):
+                sF.set_dcontents(dd, fresh('later_dom', z3.ArraySort(Val, z3.BoolSort())), fresh('later_map', z3.ArraySort(Val, Val)))
+            for s2, r2 in ex.call_value(sF, given[0], [], {}, node):
                 ic = [t for t in s2.trace if t['kind'] == 'Iface']
                 want = [wrapped] + [fr[p] for p in params]
                 ok = z3.And(z3.BoolVal(len(ic) == 1 and ic[0]['name'] == 'wrapped.' + wrapped_call and len(ic[0]['args']) == len(want)),
